@@ -273,7 +273,7 @@ func init() {
 	}, 150*time.Second, 25*time.Minute)
 
 	// C14 — EnsurePathExistsOnAdd
-	registerSeq("C14", func(tier string) *seqProp {
+	registerSeqMulti("C14", func(tier string) []*seqProp {
 		opts := []r69.Options{{Neg: true, Ensure: true, EscapeHTML: true}, {Neg: false, Ensure: true, EscapeHTML: true}}
 		docs := []string{`{}`, `[]`, `{"a":{"b":{}},"m~~n":[]}`, `{"a":[{"b":[]}],"a/b":{"a":1},"a~1b":{"b":2}}`, `[[],{"a":[1]}]`, `{"b":[1,[2]],"a":{"a/b":{}}}`}
 		el := 3
@@ -285,10 +285,15 @@ func init() {
 			Rule: "option on: every add path of 1..L tokens over {a, b, 'a/b', 'm~~n', 0, 1, 2} ('-' as last token only) x 2 values on documents in which every prefix length is already present, " +
 				"followed by every further operation of Sigma(D); judged against reference ensure+add with ORDERED equality (frame: nothing off the path changes), " +
 				"lookup of the value at the path in the output, and agreement with plain add wherever plain add succeeds"}
+		// the other order: an ordinary operation first (remove / move shrink arrays in place), then an
+		// add that has to create parents and pad arrays
+		rev := &seqProp{ID: "C14", Docs: []string{`{"a":[{"k":1},{"k":2},{"k":3}],"b":{"a":[1]}}`, `[[1,2,3],{"a":[]}]`}, Opts: opts[:1], Depth: 2,
+			Alpha: []*AlphaCfg{{Values: v1n, ReplValues: v1n, Kinds: kinds("remove", "move", "replace")}, {EnsureLen: 3, Values: []*rj.Value{patchValues[0]}}}, Judge: judgeC14,
+			Rule: "option on, the other order: every remove / move / replace first, then every add path of 1..3 tokens (parents created, arrays padded after they shrank); same oracle"}
 		if tier == "thorough" {
 			p.Alpha = []*AlphaCfg{first, {}}
 		}
-		return p
+		return []*seqProp{p, rev}
 	}, 150*time.Second, 25*time.Minute)
 
 	// C15 — well-formed outputs, escaping, indentation (Apply part)
@@ -325,7 +330,7 @@ func init() {
 
 	// C18 — legacy Apply
 	registerSeqMulti("C18", func(tier string) []*seqProp {
-		docs := []string{Dq[0], Dq[1], Dq[2], Dq[3], Dq[6], Dq[7], Dq[9], Dq[10], Dq[11],
+		docs := []string{Dq[0], Dq[1], Dq[2], Dq[3], Dq[6], Dq[7], Dq[12], Dq[10], Dq[11],
 			`{"n":1.0,"e":1e400,"z":-0,"big":12345678901234567890123,"s":"plain"}`}
 		a := &AlphaCfg{NoRootAdd: true, InteriorNeg: true}
 		p := &seqProp{ID: "C18", Legacy: true, Docs: docs, Opts: optsNeg(r69.Options{EscapeHTML: true}), Depth: 2, Alpha: []*AlphaCfg{a}, Judge: judgeC18,
@@ -561,6 +566,11 @@ func init() {
 			pats = containersOnly(famV3())
 		}
 		ctx.Phase("merge", func() { runMergeEdges(ctx, "C19", true, v2, pats, mergeCfg{}) })
+		// number literals survive a merge in both patch shapes (array-rooted patches included)
+		bigs := parseAll([]string{`[12345678901234567890]`, `[{"id":9007199254740993},1e400]`, `{"n":18446744073709551615,"a":[1.10,-0]}`, `{"a":{"n":1e400}}`, `[]`, `[1.0]`})
+		ctx.Phase("merge_literals", func() {
+			runMergeEdges(ctx, "C19", true, parseAll([]string{`{"a":1}`, `{"n":1,"a":{"n":2}}`, `[1]`, `"s"`}), bigs, mergeCfg{})
+		})
 		objs := noFloatSpelling(onlyObjs(v2))
 		ctx.Phase("create", func() { runCreatePairs(ctx, "C19", true, objs, objs) })
 		docs := append(append([]*rj.Value(nil), v1...), parseAll(membs2)...)
